@@ -70,14 +70,22 @@ pub fn check(r: &mut QueryServerReadTransaction<'_>, snap: &Snap, n: usize) -> V
             }
         }
     }
+    // uuids that survived a uuid (add) conflict: some conflict entry names them as its source
+    let conflict_sources: BTreeSet<Uuid> = snap
+        .entries
+        .iter()
+        .filter(|e| e.attribute_equality(Attribute::Class, &EntryClass::Conflict.into()))
+        .flat_map(|e| crate::oracles::uuids_of(e, Attribute::SourceUuid))
+        .collect();
     for (name, u) in &by_name {
+        let tag = if conflict_sources.contains(u) { " (entry survived a uuid conflict)" } else { "" };
         match vh::lookup_name2uuid(r, name) {
             Ok(Some(g)) if g == *u => {}
-            other => out.push(f("name2uuid", "live name does not resolve to its entry".into(), format!("node {n}: name2uuid({name:?}) = {other:?}, a scan gives {u}"))),
+            other => out.push(f("name2uuid", format!("live name does not resolve to its entry{tag}"), format!("node {n}: name2uuid({name:?}) = {other:?}, a scan gives {u}{tag}"))),
         }
         match r.name_to_uuid(name) {
             Ok(g) if g == *u => {}
-            other => out.push(f("name_to_uuid", "live name does not resolve to its entry".into(), format!("node {n}: name_to_uuid({name:?}) = {other:?}, a scan gives {u}"))),
+            other => out.push(f("name_to_uuid", format!("live name does not resolve to its entry{tag}"), format!("node {n}: name_to_uuid({name:?}) = {other:?}, a scan gives {u}{tag}"))),
         }
     }
     for name in dead_names.iter().filter(|d| !by_name.contains_key(*d)) {
